@@ -125,3 +125,23 @@ Definition grpcshape_mismatches (cs : list (N * eshape * grpc_code * string * co
            if core_eq_dec (core_of_resp mr) back then [] else [i]
          else [i]
        else [i] end end) cs.
+
+(* ---- grpc.EncodeError in full, re-encoded k times ---- *)
+Definition detail_eq_dec (a b : detail) : {a = b} + {a <> b}.
+Proof. decide equality; [apply resp_eq_dec|apply string_dec]. Defined.
+
+Definition gstatus_eq_dec (a b : gstatus) : {a = b} + {a <> b}.
+Proof. decide equality; [apply (list_eq_dec detail_eq_dec)|apply string_dec|apply Nat.eq_dec]. Defined.
+
+Definition mkg c m ds : gstatus := {| gcode := c; gmsg := m; gdetails := ds |}.
+
+(* identifiers drawn by NewErrorID are blanked by the harness: the model draws "" *)
+Definition odetail_eq_dec (a b : option detail) : {a = b} + {a <> b}.
+Proof. decide equality; apply detail_eq_dec. Defined.
+
+Definition grpcfull_mismatches (cs : list (N * eshape * nat * gstatus * option detail)) : list N :=
+  flat_map (fun c => match c with (i, e, k, observed, dec) =>
+     let s := Nat.iter k (reencode "") (grpc_encode_full "" e) in
+     if gstatus_eq_dec s observed then
+       if odetail_eq_dec (grpc_decode s) dec then [] else [i]
+     else [i] end) cs.
